@@ -80,6 +80,16 @@ def gen_cases(ctx):
         for a, b in itertools.product(group, repeat=2):
             cases.append(('exhaustive', a, b))
     ctx.cov['exhaustive_small_pairs'] = len(cases)
+    # exhaustive line strings over a small alphabet (repeated lines, duplicated next to the original), top level and as a member
+    lines = ['a\n', 'b\n', '\n'] if ctx.tier == 'quick' else ['a\n', 'b\n', '\n', 'ab\n']
+    maxlen = 3 if ctx.tier == 'quick' else 4
+    lstrs = [''.join(t) for n in range(0, maxlen + 1) for t in itertools.product(lines, repeat=n)]
+    lstrs += [x.rstrip('\n') for x in lstrs if x.endswith('a\n')]
+    pairs = list(itertools.product(lstrs, repeat=2))
+    if ctx.tier == 'quick':
+        pairs = rng.sample(pairs, 700)
+    for k, (a, b) in enumerate(pairs):
+        cases.append(('line-strings', a, b) if k % 3 else ('line-strings', {'s': a, 'k': 1}, {'s': b, 'k': 1}))
     # strings over every separator
     for s1 in gen_json.SEPS:
         for s2 in gen_json.SEPS[:4] + [rng.choice(gen_json.SEPS)]:
